@@ -564,7 +564,7 @@ func c16GenFilters(r *common.Rand, ids []string) []common.JFilter {
 }
 
 func c16GenCap(r *common.Rand) int {
-	if r.Intn(6) == 0 {
+	if r.Intn(3) == 0 {
 		return 100
 	}
 	return 1 + r.Intn(6)
@@ -596,7 +596,29 @@ func c16GenCacheSession(r *common.Rand) (int, []c16Msg) {
 			msgs = append(msgs, c16Msg{K: "event", E: &e})
 		case x < 78:
 			fs := c16GenFilters(r, ids)
-			if len(reqs) > 0 && r.Chance(30) {
+			if len(offered) > 0 && r.Chance(30) {
+				// one filter with a single id, author or kind taken from an event already offered, and a second
+				// condition: the candidates of the first are cut down by the second
+				ev := pool[offered[r.Intn(len(offered))]]
+				var f common.JFilter
+				switch r.Intn(3) {
+				case 0:
+					f.IDs = common.Ptr([]string{ev.ID})
+				case 1:
+					f.Authors = common.Ptr([]string{ev.PK})
+				default:
+					f.Kinds = common.Ptr([]int64{ev.Kind})
+				}
+				switch r.Intn(3) {
+				case 0:
+					f.Kinds = common.Ptr([]int64{common.Pick(r, []int64{0, 1, 5, 30000})})
+				case 1:
+					f.Authors = common.Ptr([]string{common.Pick(r, c16Authors)})
+				default:
+					f.Tags = common.Ptr([]common.JTagCond{{Name: "t", Vals: []string{common.Pick(r, []string{"x", "y"})}}})
+				}
+				fs = []common.JFilter{f}
+			} else if len(reqs) > 0 && r.Chance(30) {
 				// an earlier REQ again, with one condition fewer per filter
 				fs = common.Relax(r, reqs[r.Intn(len(reqs))])
 			}
